@@ -20,13 +20,13 @@ class C03(Check):
             'key, 1-3 tables at once, 1-4 rows), append pairs (new and repeated keys, int/float/str values), rows+pairs '
             'in one call, append-empty, write-copy under a new name (history continues on the copy), write over an '
             'existing file, append to a file removed behind the object (then re-created by write), re-read normal/raw, '
-            'write without filename} starting from generated table sets (hostile strings, arrays, enums, zero-row '
+            'write without filename, append whose write fails with a real EFBIG (RLIMIT_FSIZE)} starting from generated table sets (hostile strings, arrays, enums, zero-row '
             'tables); every row carries a unique id.  Non-trivial: history with >=1 successful append and >=1 refusal or '
             're-read; distinct by hash of start state + operation list.')
     ASSUMPTIONS = ['appended pair keys are not table names or "symbols" (documented skip); timestamps in the "# Appended by" '
                    'comment are never compared (parsed content and byte prefixes only)',
                    'the audit hook sees every open() made through the io layer (builtin open / io.open)']
-    REQUIRED_COUNTERS = ('unsized_char_histories', 'appends_ok', 'refusals_write_over', 'refusals_append_missing', 'append_empty', 'write_copy',
+    REQUIRED_COUNTERS = ('append_write_failures', 'unsized_char_histories', 'appends_ok', 'refusals_write_over', 'refusals_append_missing', 'append_empty', 'write_copy',
                          'rereads_raw', 'prefix_checks', 'audit_open_events', 'lowercase_key_appends', 'array_form_appends')
 
     def setup(self):
@@ -117,8 +117,8 @@ class C03(Check):
         nkeys = 0
         for step in range(rng.randint(1, 12)):
             op = rng.choice(['rows', 'rows', 'rows', 'pairs', 'both', 'empty', 'copy', 'over', 'over_other', 'missing',
-                             'reread', 'nofilename'])
-            if op in ('rows', 'both'):
+                             'reread', 'nofilename', 'rows_io_fail'])
+            if op in ('rows', 'both', 'rows_io_fail'):
                 which = rng.sample(range(ntab), rng.randint(1, min(3, ntab)))
                 d = {'op': op, 'tables': [], 'form': rng.choice(['list', 'array', 'list'])}
                 for ti in which:
@@ -316,6 +316,16 @@ class C03(Check):
                     warnings.simplefilter('always')
                     if op['op'] in ('rows', 'both', 'pairs'):
                         y.append(self._append_arg(model, op))
+                    elif op['op'] == 'rows_io_fail':
+                        # the write itself fails (file-size limit reached: a real EFBIG from the OS, as on a full disk)
+                        import resource
+                        soft, hard = resource.getrlimit(resource.RLIMIT_FSIZE)
+                        arg = self._append_arg(model, op)
+                        resource.setrlimit(resource.RLIMIT_FSIZE, (os.path.getsize(bound), hard))
+                        try:
+                            y.append(arg)
+                        finally:
+                            resource.setrlimit(resource.RLIMIT_FSIZE, (soft, hard))
                     elif op['op'] == 'empty':
                         y.append({})
                     elif op['op'] == 'copy':
@@ -372,6 +382,12 @@ class C03(Check):
                 out.expect(not any(m and 'w' in m for p, m in opens), 'audit', '%s: append opened a file for writing' % tag)
                 n_ok_append += 1
                 out.count('appends_ok')
+            elif op['op'] == 'rows_io_fail':
+                out.expect(isinstance(exc, OSError), 'io-failure', '%s: append with a failing write did not raise OSError (%r)' % (tag, exc))
+                out.expect(after == before, 'io-failure', '%s: the failed append changed a file' % tag)
+                out.count('append_write_failures')
+                n_refusal += 1
+                # object must not have taken the rows that never reached the file: compared with the model below
             elif op['op'] == 'empty':
                 out.expect(exc is None, 'append-empty', '%s raised %s' % (tag, exc))
                 out.expect(len(warned) >= 1, 'append-empty', '%s: no PydlutilsUserWarning' % tag)
